@@ -21,12 +21,12 @@ Proof. exact C14_total_backward_holds. Qed.
    sums, no max()/min() of an empty list) *)
 Theorem C14_compute_no_crash : forall cfg w ds l t b k,
   kids_full w ds t -> fwd_compute cfg w ds l t b <> Crash k /\ bwd_compute cfg w ds l t b <> Crash k.
-Proof. intros cfg w ds l t b k H. exact (conj (fwd_compute_no_crash cfg w ds l t b k H) (bwd_compute_no_crash cfg w ds l t b k H)). Qed.
+Proof. exact C14_compute_no_crash_holds. Qed.
 
 (* ---- (b) the unschedulable inputs answer RuntimeError ---- *)
 (* a predecessor outside the WBS without a start or an end date *)
 Theorem C14_err_isolated : forall cfg w, isolated_ok w = false -> forward cfg w = Err /\ backward cfg w = Err.
-Proof. intros cfg w H. exact (conj (C14_err_isolated_forward cfg w H) (C14_err_isolated_backward cfg w H)). Qed.
+Proof. exact C14_err_isolated_holds. Qed.
 
 (* a fixed end after the clock (forward) *)
 Theorem C14_err_future_end : forall cfg w, no_future_ends w (now cfg) = false -> forward cfg w = Err.
@@ -39,32 +39,21 @@ Theorem C14_err_no_capacity : forall cfg w t rest,
   (forall d, cap cfg (k_res (gett w t)) d <= 0) ->
   (roots w = t :: rest -> k_start (gett w t) = None -> forward cfg w = Err)
   /\ (rev (roots w) = t :: rest -> k_end (gett w t) = None -> backward cfg w = Err).
-Proof.
-  intros cfg w t rest Hw Hl Hm Hc. split; intros Hr Hd.
-  - exact (C14_err_no_capacity_forward_holds cfg w t rest Hw Hr Hl Hm Hd Hc).
-  - exact (C14_err_no_capacity_backward_holds cfg w t rest Hw Hr Hl Hm Hd Hc).
-Qed.
+Proof. exact C14_err_no_capacity_holds. Qed.
 
 (* a cycle of the effective waiting relation (own and inherited prerequisites / dependants, children)
    through a member task - in particular a cycle that only closes through the hierarchy *)
 Theorem C14_err_cycle : forall cfg w u,
   WFin w -> k_ext (gett w u) = false ->
   (clos_trans nat (fwaits w) u u -> forward cfg w = Err) /\ (clos_trans nat (bwaits w) u u -> backward cfg w = Err).
-Proof.
-  intros cfg w u Hw He. split; intros Hc;
-    [exact (C14_err_cycle_forward_wf cfg w u Hw He Hc) | exact (C14_err_cycle_backward_wf cfg w u Hw He Hc)].
-Qed.
+Proof. exact C14_err_cycle_holds. Qed.
 
 (* the shape of the property text: A is a child of P, A waits for B, B waits for P *)
 Theorem C14_err_hierarchy_cycle : forall cfg w A B P,
   WFin w -> k_ext (gett w P) = false -> In A (k_children (gett w P)) ->
   (In B (k_preds (gett w A)) -> In P (k_preds (gett w B)) -> forward cfg w = Err)
   /\ (k_parent (gett w A) = Some P -> In A (k_succs (gett w B)) -> In B (k_succs (gett w P)) -> backward cfg w = Err).
-Proof.
-  intros cfg w A B P Hw He HA. split.
-  - intros HB HP. exact (C14_err_hierarchy_cycle_forward_wf cfg w A B P Hw He HA HB HP).
-  - intros Hp HB HP. exact (C14_err_hierarchy_cycle_backward_wf cfg w A B P Hw He HA Hp HB HP).
-Qed.
+Proof. exact C14_err_hierarchy_cycle_holds. Qed.
 
 (* every member of a well-formed WBS hangs below a root, so every complete run calculates it *)
 Theorem C14_members_under_root : forall w u, WFin w -> (u < length w)%nat -> k_ext (gett w u) = false -> under_root w u.
@@ -77,11 +66,7 @@ Theorem C14_reentry : forall w deps kids bnd compute fuel st t,
   gpass w deps kids bnd compute (S fuel) st t = Err
   /\ forall (f : sst -> nat -> res sst) l1 a l2 s s1,
        fold_res f l1 s = Ok s1 -> f s1 a = Err -> fold_res f (l1 ++ a :: l2) s = Err.
-Proof.
-  intros w deps kids bnd compute fuel st t H1 H2 H3. split.
-  - exact (gpass_reentry w deps kids bnd compute fuel st t H1 H2 H3).
-  - exact (@fold_res_err_propagates sst nat).
-Qed.
+Proof. exact C14_reentry_holds. Qed.
 
 (* ---- (c) RuntimeError has no other cause, hence the converse ---- *)
 Theorem C14_err_causes_forward : forall cfg w,
@@ -126,13 +111,7 @@ Theorem C14_divisors_positive : forall cfg l r t x left l' s,
      exists d, s = DAY * d + frac (used (balance cfg) l' r d t) (cap cfg r d) /\ 0 < cap cfg r d)
   /\ (0 < left -> bwd_shift cfg l r t x left = Ok (l', s) ->
      exists d, s = DAY * (d + 1) - frac (used (balance cfg) l' r d t) (cap cfg r d) /\ 0 < cap cfg r d).
-Proof.
-  intros cfg l r t x left l' s Hpos. split; [|split; [|split]].
-  - exact (fwd_nearest_divisor cfg l r t x s Hpos).
-  - exact (bwd_nearest_divisor cfg l r t x s Hpos).
-  - exact (fwd_shift_divisor cfg l r t x left l' s Hpos).
-  - exact (bwd_shift_divisor cfg l r t x left l' s Hpos).
-Qed.
+Proof. exact C14_divisors_positive_holds. Qed.
 
 (* ---- non-vacuity: computed runs ---- *)
 Definition ex_cap (r : nat) (d : Z) : Z :=
